@@ -85,6 +85,10 @@ def site(source, pos):
         return [P('x')] + e + [P('y')]
     if pos == 'last':
         return [P('x'), P('y')] + e
+    if pos == 'rearmed':
+        # after a statement that takes no further argument (here the trap armed once more): in the spaced layout
+        # the blank before the separator is left for the next statement to skip
+        return [P('x'), ('onerror', 1000)] + e + [P('y')]
     if pos == 'then':
         return [('if', ('c', 1), None)] + e + [P('x'), ('else', None), P('y')]
     if pos == 'else':
@@ -262,6 +266,18 @@ def cases_high(quick):
             if c[1] == 'middle' and (not quick or c[2] in ('main', 'gosub1', 'for', 'direct'))]
 
 
+def cases_spaced(quick):
+    """The product in two positions written with a blank before every separator."""
+    out = []
+    for source in SOURCE_ORDER:
+        for pos in ('middle', 'rearmed'):
+            for ctx in CONTEXTS:
+                for h in HANDLERS:
+                    if valid(source, pos, ctx, h, 'armed') and (not quick or ctx in ('main', 'gosub1', 'forline', 'direct')):
+                        out.append((source, pos, ctx, h, 'armed', None, 'spaced'))
+    return out
+
+
 def cases_pairs(quick):
     out = []
     srcs = [s for s in SOURCE_ORDER if s != 'ERROR73']
@@ -294,9 +310,21 @@ class _O(object):
 def run_case(part, runner, case, leg):
     source, pos, ctx, h, trap, second = case[:6]
     lines, direct = build(source, pos, ctx, h, trap, second)
+    if len(case) > 6 and case[6] == 'spaced':
+        # a blank before every statement separator and list comma
+        MB.LAYOUT = 'spaced'
+        try:
+            return _run_built(part, runner, case, lines, direct)
+        finally:
+            MB.LAYOUT = 'tight'
     if len(case) > 6:
         # line numbers beyond 32767 (ERL is not a 16-bit signed quantity)
         lines, direct = shift_lines(lines, direct, case[6])
+    return _run_built(part, runner, case, lines, direct)
+
+
+def _run_built(part, runner, case, lines, direct):
+    source, pos, ctx, h, trap, second = case[:6]
     c = {'case': list(case), 'program': [t.decode('latin-1') for t in MB.program_text(lines)],
          'direct': MB.line_text(direct) if direct else None}
 
@@ -309,7 +337,7 @@ def run_case(part, runner, case, leg):
         wrap=_O)
     part.n += 1
     k = kind(outcomes[0])
-    part.classes.add('%s/%s/%s/%s%s' % (source, ctx, h if trap == 'armed' else trap, k, '/high-lines' if len(case) > 6 else ''))
+    part.classes.add('%s/%s/%s/%s%s' % (source, ctx, h if trap == 'armed' else trap, k, ('/spaced' if case[6] == 'spaced' else '/high-lines') if len(case) > 6 else ''))
     part.outcome(k)
     return c
 
@@ -562,6 +590,9 @@ def _legs_model(ctx):
         Leg('high-lines', list(chunked(cases_high(ctx.quick), 60)), work_cases, exhaustive=True,
             bound='%d programs: the product at one position with every line number and reference moved up by %d '
                   '(all lines beyond 32767)' % (len(cases_high(ctx.quick)), HIGH_SHIFT)),
+        Leg('spaced', list(chunked(cases_spaced(ctx.quick), 60)), work_cases, exhaustive=True,
+            bound='%d programs: the armed product at two positions (between two PRINTs; right after a statement without further '
+                  'arguments) written with a blank before every statement separator and list comma' % len(cases_spaced(ctx.quick))),
         Leg('after-stop', list(chunked(afterstop_cases(), 20)), work_afterstop, exhaustive=True,
             bound='%d programs stopped by an error inside their handler x %d direct-mode continuations without RUN (GOTO back in, '
                   'RESUME, ERROR, GOSUB): the trap must catch again, RESUME has nothing to resume' % (
@@ -577,7 +608,7 @@ def replay(ctx, leg, case):
     runner = Runner()
     if leg == 'stop-cont':
         return work_stopcont([tuple(case['case'])])
-    if leg in ('product', 'pairs', 'high-lines'):
+    if leg in ('product', 'pairs', 'high-lines', 'spaced'):
         run_case(part, runner, tuple(case['case']), leg)
     else:
         return work_codes([case['code']])
